@@ -23,3 +23,5 @@ open Nitime.C16.Props
 #print axioms setItem_current_counterexample
 #print axioms checkUniform_before_counterexample
 #print axioms binop_before_counterexample
+#print axioms series_arith_shares_nothing
+#print axioms series_time_read_not_shared
